@@ -1,6 +1,7 @@
 pub mod iso4217;
 pub mod m1;
 pub mod m2;
+pub mod mutate;
 pub mod corpus;
 
 /// Wrap block-4 fields (LF form, each field ending in LF) into a complete input message.
